@@ -1424,12 +1424,18 @@ impl Core {
 		Ok(core)
 	}
 
-	pub(crate) async fn commit(&self, batch: Batch, sync: bool, start_seq: u64) -> Result<()> {
-		// Commit the batch using the commit pipeline. `start_seq` is the
-		// transaction's snapshot seq (used by the oracle's write-write
-		// conflict check). The write keys are derived from `batch.entries`
-		// inside the pipeline — no duplicated parallel array.
-		self.commit_pipeline.commit(batch, sync, start_seq).await
+	/// Commits the batch using the commit pipeline. `start_seq` is the transaction's
+	/// snapshot seq (used by the oracle's write-write conflict check) and `begin_epoch`
+	/// the restore epoch at which it began. The write keys are derived from
+	/// `batch.entries` inside the pipeline — no duplicated parallel array.
+	pub(crate) async fn commit_from_epoch(
+		&self,
+		batch: Batch,
+		sync: bool,
+		start_seq: u64,
+		begin_epoch: u64,
+	) -> Result<()> {
+		self.commit_pipeline.commit_from_epoch(batch, sync, start_seq, begin_epoch).await
 	}
 
 	pub(crate) fn seq_num(&self) -> u64 {
